@@ -7,6 +7,7 @@ pub mod p19;
 pub mod p20;
 pub mod pcli;
 pub mod pexpr;
+pub mod pglob;
 pub mod pwalk;
 
 /// One property's binding to the real code.
@@ -33,6 +34,7 @@ pub fn get(name: &str) -> Option<Box<dyn Prop>> {
         "C01" => Some(Box::new(pexpr::PExpr::new("C01"))),
         "C11" => Some(Box::new(pexpr::PExpr::new("C11"))),
         "C11o" => Some(Box::new(pcli::PCli::default())),
+        "C12" => Some(Box::new(pglob::PGlob::default())),
         "C04" => Some(Box::new(p04::P04::default())),
         "C05" => Some(Box::new(p05::P05::default())),
         "C19" => Some(Box::new(p19::P19::default())),
